@@ -51,14 +51,24 @@ def order_tree(rng, root, n_files=None, extra=0):
                       "mtime": base + (i * 7) % 100000, "owner": (rng.choice([0, 1, 2, 10, 100]), rng.choice([0, 5, 50])),
                       "mode": rng.choice([0o644, 0o600, 0o755])})
     tree.materialise(root, nodes)
+    # sparse files whose sizes differ by less than a double can tell (the scratch area is a tmpfs: no blocks are allocated)
+    if rng.random() < 0.3:
+        for k, sz in enumerate(rng.sample([2 ** 53, 2 ** 53 + 1, 2 ** 53 + 2, 2 ** 53 - 1, 2 ** 60 + 1, 2 ** 60, 2 ** 32, 2 ** 32 - 1], 3)):
+            try:
+                with open(os.path.join(root, "huge%d.bin" % k), "wb") as f:
+                    f.truncate(sz)
+                nodes.append({"path": "huge%d.bin" % k, "kind": "file", "size": sz})
+            except OSError:
+                pass
     return nodes
 
 
 def parse_key(kind, text):
     if kind == "num":
         if text == "":
-            return 0.0
-        return float(text)
+            return 0
+        # whole numbers exactly (sizes beyond 2^53 must not collapse into one float)
+        return int(text) if text.lstrip("-").isdigit() else float(text)
     if kind == "date":
         return datetime.datetime.strptime(text, "%Y-%m-%d %H:%M:%S")
     return text.encode("utf-8", "surrogateescape")
